@@ -53,7 +53,7 @@ CHECKS = {
         text=("Machine-checked proof (Coq): m_disjoint a b = is_false (m_and a b) for all diagrams (no hypothesis), m_disjoint is "
               "symmetric (no hypothesis), a positive verdict excludes every common valuation for sorted well-typed operands "
               "(via C02), is_true/is_false are sound. Tie: m_disjoint (extracted) vs is_disjoint on the operands the crate produced, "
-              "both argument orders, vs (a and b).is_false(); positive verdicts are attacked by an exact region search replayed on "
+              "both argument orders, vs (a and b).is_false(); the crate's recursion on ids (disjoint_i) is modelled and proved to compute m_disjoint of the unfolded diagrams; positive verdicts are attacked by an exact region search replayed on "
               "evaluate()."),
         design_ref='DESIGN.md section 7 / C04',
         technique='Coq proof (simultaneous induction with tand) + step-wise differential correspondence + counter-model search'),
@@ -148,14 +148,16 @@ CHECKS = {
         design_ref='DESIGN.md section 7 / C17',
         technique='Coq proof (exhaustive case analysis of the typed dispatch, universally quantified oracles) + differential correspondence'),
     'C05': dict(
-        text=("PARTIAL proof + per-instance validation. Proved (Coq): a sorted diagram is the disjunction of its root-to-TRUE paths (the structure "
-              "collect_dnf walks), for every valuation. NOT modelled: the per-edge encodings of ranges as comparison expressions (range_inequality, star "
-              "recognition, from_release_only_bounds) and the heuristic clause/term simplifier; the text parser is modelled (C06/C07). Instead, for every marker of "
-              "the run the clauses of to_dnf() are recompiled (OR of ANDs) with the extracted proved operations and must give back the identical canonical diagram, "
-              "and Display/try_to_string/contents()/serde text must parse back to an == marker (FALSE and deprecated spellings: equivalent on final-release "
-              "environments) - translation validation per instance, not a universal theorem about the simplifier."),
+        text=("Machine-checked proof (Coq): the DNF printer of src/marker/simplify.rs is modelled loop for loop (edge grouping, inequality and star-inequality "
+              "recognition, release-only specifiers, string bounds, path collection, the negation tables, the quadratic clause simplifier) and proved to denote the "
+              "marker: for every well-formed diagram with final-release cuts other than TRUE the clauses of to_dnf evaluate like the marker, recompiling them with the "
+              "proved operations gives back the identical diagram (density proviso of C03), and every diagram the parser builds is in scope. The clause simplifier alone is "
+              "shown unsound on clause lists nobody produces (versions compared modulo trailing zeros vs segment-count dependent operators; witnesses by computation) and "
+              "sound on what collect_dnf emits. The text printer is modelled separately (Text/MarkerDisplay*.v) with PEP 440 version text as an oracle. Tie: the extracted "
+              "to_dnf vs the crate's to_dnf() clause for clause on every marker of the run; the crate's clauses recompiled; Display / try_to_string / contents() / serde text "
+              "re-parsed to an == marker (FALSE and deprecated spellings: equivalent on final-release environments)."),
         design_ref='DESIGN.md section 7 / C05',
-        technique='Coq proof of the path decomposition + translation validation of each rendered DNF/text through the proved compile (canonicity)'),
+        technique='Coq proof (path decomposition, range-to-specifier lemmas, invariant of the simplifier loops) + differential correspondence of to_dnf + executed text round trips'),
     'C06': dict(
         text=("Machine-checked proof (Coq), for every input text and every answer of the dependencies (Unicode classes, PEP 440 syntax, URL parser, environment): "
               "each parsing entry point of the model (requirement incl. both URL types and both feature configurations, marker tree, marker expression, extras list, "
